@@ -42,8 +42,12 @@ TRUSTED = [
 # expressions: (hy text, python text); the debugging = is only judged where both texts coincide
 EXPRS = [("x", "x"), ("y", "y"), ("w", "w"), ("n", "n"), ("s", "s"), ("z", "z"), ("3", "3"), ("x.real", "x.real"),
          ('"q"', '"q"'), ("(+ n 1)", "(n + 1)"), ("(len s)", "len(s)"), ("(get s 0)", "s[0]"), ("[n w]", "[n, w]"),
-         ("(.upper s)", "s.upper()"), ("(* w 2)", "(w * 2)"), ("None", "None"), ("-7", "-7"), ("1.5", "1.5")]
-ENV = {"x": 3.14159, "y": "h\xe9llo", "w": 8, "n": -42, "s": "a'b\"c", "z": 10 ** 20}
+         ("(.upper s)", "s.upper()"), ("(* w 2)", "(w * 2)"), ("None", "None"), ("-7", "-7"), ("1.5", "1.5"),
+         ("fill", "fill"), ("al", "al"), ("k", "k"), ("ty", "ty")]
+# values used inside format specs: strings, whose repr differs from their str
+SPEC_EXPRS = {"fill": ("fill", "fill"), "align": ("al", "al"), "width": ("k", "k"), "type": ("ty", "ty")}
+ENV = {"x": 3.14159, "y": "h\xe9llo", "w": 8, "n": -42, "s": "a'b\"c", "z": 10 ** 20,
+       "fill": "*", "al": "^", "k": 12, "ty": "s"}
 LIT_PLAIN = list("abcXYZ 019_-+.,:;!?@#$%^&*=<>/|()[]'") + ["\xe9", "€", "\U0001F600", "\t", "\n"]
 LIT_ESC = ["\\\\", '\\"', "\\'", "\\n", "\\t", "\\r", "\\a", "\\b", "\\f", "\\v"]
 NAMES = ["BULLET", "LATIN SMALL LETTER A", "EM DASH", "GREEK SMALL LETTER LAMDA", "HYPHEN-MINUS"]
@@ -102,7 +106,23 @@ def gen_field(rng, depth):
         dbg = ws()
     if rng.random() < 0.4:
         conv = (rng.choice("sra"), rng.choice(["", "", " "]))
-    if rng.random() < 0.5:
+    if rng.random() < 0.22:
+        # a spec assembled from nested fields: [fill][align][width][type], each a field without conversion of its own,
+        # under an outer conversion or not (the nested fields must not inherit it)
+        hs = True
+        if conv is None and rng.random() < 0.7:
+            conv = (rng.choice("ra"), rng.choice(["", " "]))
+        bare = lambda name: ("field", "", SPEC_EXPRS[name][0], SPEC_EXPRS[name][1], "", None, None, False, [])
+        lit = lambda t: ("lit", t, t, t)
+        if rng.random() < 0.7:
+            spec.append(bare("fill"))
+            spec.append(bare("align") if rng.random() < 0.5 else lit(rng.choice("<>^")))
+        elif rng.random() < 0.5:
+            spec.append(bare("align"))
+        spec.append(bare("width") if rng.random() < 0.6 else lit(str(rng.randrange(1, 20))))
+        if conv is not None and rng.random() < 0.4:
+            spec.append(bare("type"))
+    elif rng.random() < 0.5:
         hs = True
         for _ in range(rng.randrange(0, 3)):
             if rng.random() < 0.55 or depth <= 0:
